@@ -262,6 +262,26 @@ def run_cli(unit):
             r = subprocess.run(args, cwd=d, capture_output=True, text=True, env=env, timeout=120)
             files = os.listdir(os.path.join(d, "out"))
             want = expected_refusal(cfg)
+            # the -F list may be spelled with blanks around the commas: same selection, same output
+            if cfg["opt"] and cfg["F"] and cfg["marker"] == "none" and cfg["lang"] in ("c", "go") and r.returncode == 0:
+                base = {f: open(os.path.join(d, "out", f)).read() for f in files}
+                for spelled in ("Inner,Last", "Inner, Last", " Inner ,Last ", "Inner , Last,Nope"):
+                    o2 = os.path.join(d, "out2")
+                    os.makedirs(o2, exist_ok=True)
+                    for f in os.listdir(o2):
+                        os.remove(os.path.join(o2, f))
+                    o3 = os.path.join(d, "out3")
+                    os.makedirs(o3, exist_ok=True)
+                    r2 = subprocess.run([sys.executable, "-m", "bitproto._main", cfg["lang"], "t.bitproto", "out2", "-q", "-O", "-F", spelled], cwd=d, capture_output=True, text=True, env=env, timeout=120)
+                    r3 = subprocess.run([sys.executable, "-m", "bitproto._main", cfg["lang"], "t.bitproto", "out3", "-q", "-O", "-F", "Inner,Last"], cwd=d, capture_output=True, text=True, env=env, timeout=120)
+                    out.count("cli_runs", 2)
+                    a = {f: open(os.path.join(o2, f)).read() for f in os.listdir(o2)}
+                    b = {f: open(os.path.join(o3, f)).read() for f in os.listdir(o3)}
+                    if r2.returncode != 0 or a != b:
+                        out.violation(check="cli-subprocess", symptom="filter_spelling_changes_selection", site="_main:run_bitproto", features=["lang:" + cfg["lang"]],
+                                      sig_features=[cfg["lang"], spelled], desc="-O -F %r (exit %d) does not give the output of -F Inner,Last: differing files %s" % (
+                                          spelled, r2.returncode, sorted(f for f in set(a) | set(b) if a.get(f) != b.get(f))), schema=schema(cfg["marker"]),
+                                      replay=dict(kind="c17", cfg=cfg))
             out.count("states")
             out.count("transitions")
             out.count("evaluations")
